@@ -110,7 +110,12 @@ claimed = {
 }
 
 na_reason = 'not yet claimed: contracts for this property are still being written (see DESIGN.md §10 status)'
-na = {}
+na = {
+ 'C16': "not applicable to contract-based deductive verification: bounded-time teardown and goroutine exit are liveness statements over all schedules of at least four goroutines per connection; no pre/postcondition of a function states them. The safety premises they rest on (lock balance on every path, Close wakes both sides, no wait that can never end) are proved under C15, and teardown's single-shot behaviour under C09.",
+ 'C18': "not applicable to contract-based deductive verification: data-race freedom is a happens-before property of every pair of accesses in every schedule; a function contract cannot quantify over what other goroutines do. Related per-function facts are proved elsewhere (the write mutex discipline under C17, lock balance under C15, the ack queue's operations under its mutex under C13).",
+ 'C08': "not claimed: the retained-message store is a trie of Go maps traversed recursively and by map iteration (rinsert, rremove, rmatch, allRetained), which the verification-condition generator does not model, and the handler that delivers retained messages (processSubscribe) could not be brought within reach either (DESIGN.md sections 10 and 0a). Only the helper facts proved for other properties apply (Clone result is a fresh object - trusted; SetRetain/SetQoS change only the flag bits).",
+ 'C20': "not claimed: the client API (Client.Connect, subscribe/unsubscribe closures) was not put under contract in the time available; its building blocks are covered by other checks (CONNACK decoding C03/C04, the ack dispatch and completion callbacks C12, fan-out to the callback C01).",
+}
 
 checks = []
 for pid, c in claimed.items():
